@@ -247,6 +247,9 @@ Section Exec.
   Definition exec (prio : list Z) (st : state) (k : cont) : sres :=
     match k with
     | KBroker c t p cnt off =>
+        (* intervals = 0: ring.New(0) is nil and topicList[p].Next() dereferences it (inmemory.go addBrokerOffset);
+           Storage.add_broker_offset does not model that corner (its theorems carry 1 <= intervals) *)
+        if Nat.eqb (cf_intervals cf) O then SCrash else
         match add_broker_offset cf st c t p cnt off with Done st' r => SDone st' r | Crashed => SCrash end
     | KCommit1 c g t p off order ts =>
         match get st c with
